@@ -41,6 +41,11 @@ func (round *round4) Start() *tss.Error {
 
 	// compute the multiplicative inverse thelta mod q
 	thetaInverse = modN.ModInverse(thetaInverse)
+	if thetaInverse == nil {
+		// the theta_j sum to 0 modulo the group order (a peer that speaks last can arrange this): there is no inverse,
+		// and nobody in particular to blame
+		return round.WrapError(errors.New("the sum of all theta_j has no inverse"))
+	}
 	i := round.PartyID().Index
 	ContextI := append(round.temp.ssid, new(big.Int).SetUint64(uint64(i)).Bytes()...)
 	piGamma, err := schnorr.NewZKProof(ContextI, round.temp.gamma, round.temp.pointGamma, round.Rand())
